@@ -225,10 +225,11 @@ def orphans(order=0):
     return Game("orphans(%d)" % order, pl, tl, [idx["F"]], rw)
 
 
-def p1_final(owner=P1):
-    """a final state that is owned by a player, is not absorbing and has actions of different value and reward"""
-    return Game("p1_final(%s)" % owner[-1], [PR, owner, PR, PR, PR, PR],
-                [[(1, 1)], [("stay", 2), ("leave", 3)], [(1, 4)], [(0.5, 4), (0.5, 5)], [(1, 4)], [(1, 5)]], [1, 4],
+def p1_final(owner=P1, descending=False):
+    """a final state that is owned by a player, is not absorbing and has actions of different value and reward
+    (optionally with the final states listed in descending order)"""
+    return Game("p1_final(%s%s)" % (owner[-1], ",desc" if descending else ""), [PR, owner, PR, PR, PR, PR],
+                [[(1, 1)], [("stay", 2), ("leave", 3)], [(1, 4)], [(0.5, 4), (0.5, 5)], [(1, 4)], [(1, 5)]], [4, 1] if descending else [1, 4],
                 [0, 0, 1, 5, 0, 0])
 
 
